@@ -200,10 +200,14 @@ func TestLiveness(t *testing.T) {
 				for _, i := range s.Correct {
 					cs := s.Nodes[i].CS
 					if cs.Height == s.MinHeight(s.Correct) {
-						for r := uint32(1); r <= 3; r++ {
-							dbg += fmt.Sprintf("\n n%d precommits(%d)=%v commitRound=%d", i, r, cs.Votes.Precommits(r), cs.CommitRound)
+						dbg += fmt.Sprintf("\n n%d lockedRound=%d validRound=%d validBlock=%v commitRound=%d proposer=%x", i, cs.LockedRound, cs.ValidRound, cs.ValidBlock != nil, cs.CommitRound, cs.Validators.GetProposer().Address.Bytes()[:3])
+						for r := uint32(1); r <= 5; r++ {
+							dbg += fmt.Sprintf("\n   prevotes(%d)=%s\n   precommits(%d)=%s", r, cs.Votes.Prevotes(r).StringShort(), r, cs.Votes.Precommits(r).StringShort())
 						}
 					}
+				}
+				for i := range s.Keys {
+					dbg += fmt.Sprintf("\n validator %d = %x", i, s.Addr(i).Bytes()[:3])
 				}
 			}
 			ev.Violation(t, key, s.TraceText(), "synchronous suffix did not reach height %d from %d after %d timeouts: %s\nstill on offer: %s%s", target, start, timeouts, why, s.DescribeOffers(s.Correct), dbg)
@@ -347,6 +351,65 @@ func stuckKind(s *netsim.Sim, powers []int64) string {
 			if pc := cs.Votes.Precommits(r); pc != nil {
 				if id, ok := pc.TwoThirdsMajority(); ok && !id.IsZero() {
 					return "commit-quorum-held-outside-commit-step"
+				}
+			}
+		}
+	}
+	// a locked node whose own vote set holds a complete polka for ANOTHER block in a round after its lock round that it
+	// has already reached: the unlock rule is only evaluated at the moment a prevote completes a polka, and only if the
+	// node is in that round or a later one by then; a polka that completed while the node was still behind - and whose
+	// round the node then skipped without prevoting in it - never releases the lock
+	for _, i := range s.Correct {
+		cs := s.Nodes[i].CS
+		if cs.Height != h || cs.LockedBlock == nil {
+			continue
+		}
+		for r := cs.LockedRound + 1; r <= cs.Round; r++ {
+			if pv := cs.Votes.Prevotes(r); pv != nil {
+				if id, ok := pv.TwoThirdsMajority(); ok && !id.IsZero() && !cs.LockedBlock.HashesTo(id.Hash) {
+					return "lock-not-released-by-held-polka"
+				}
+			}
+		}
+	}
+	// two correct nodes locked on different blocks, and the polka behind the LATER lock cannot be completed at the node
+	// with the earlier lock: a validator whose prevote is part of that polka has equivocated, and the earlier-locked node
+	// holds its other prevote for that round. A conflicting vote is only accepted after a peer has claimed +2/3 for its
+	// block, and such claims are made for the receiver's current round and for the POL round of the proposal it holds -
+	// which is the proposer's ValidRound (updated only if the polka completed while the proposer was IN that round), not
+	// its lock round. So the claim for the round of the later lock never comes.
+	for _, j := range s.Correct {
+		cj := s.Nodes[j].CS
+		if cj.Height != h || cj.LockedBlock == nil {
+			continue
+		}
+		pj := cj.Votes.Prevotes(cj.LockedRound)
+		if pj == nil {
+			continue
+		}
+		idj, ok := pj.TwoThirdsMajority()
+		if !ok || !cj.LockedBlock.HashesTo(idj.Hash) {
+			continue
+		}
+		for _, i := range s.Correct {
+			ci := s.Nodes[i].CS
+			if i == j || ci.Height != h || ci.LockedBlock == nil || ci.LockedRound >= cj.LockedRound || ci.LockedBlock.HashesTo(idj.Hash) {
+				continue
+			}
+			pi := ci.Votes.Prevotes(cj.LockedRound)
+			if pi == nil {
+				continue
+			}
+			if id, ok := pi.TwoThirdsMajority(); ok && id.Equal(idj) {
+				continue // it holds the polka (the previous kind)
+			}
+			forJ := pj.BitArrayByBlockID(idj)
+			for k := 0; forJ != nil && k < pj.Size(); k++ {
+				if !forJ.GetIndex(k) {
+					continue
+				}
+				if vi := pi.GetByIndex(uint32(k)); vi != nil && !vi.BlockID.Equal(idj) {
+					return "split-locks,polka-hidden-by-equivocation"
 				}
 			}
 		}
@@ -612,4 +675,162 @@ func TestKnownDecidedWithoutBlock(t *testing.T) {
 		}
 		ev.Violation(t, key, desc, "no progress under synchronous delivery: %s", why)
 	}
+}
+
+// ---------------------------------------------------------------- known finding: a held polka does not release the lock
+
+const keyHeldPolka = "liveness.stuck:lock-not-released-by-held-polka"
+
+// TestKnownLockNotReleased: four equal validators, one Byzantine (D, proposer of round 2). Round 1: C proposes X, all
+// three correct nodes prevote it, only A sees the polka and locks X; B and C see +2/3 of anything, precommit nil and move
+// on. Round 2: D proposes Y, B and C prevote it, D adds its prevote: B and C lock Y; nobody decides; round 3 begins. Now
+// the round-2 prevotes reach A while it is still in round 1 (the polka for Y completes: A is behind, so the unlock rule
+// does not apply "yet", and A is pulled into round 2), and before A has prevoted in round 2 the round-3 prevotes pull it
+// into round 3. From here on delivery is synchronous and D is silent: A holds everything that entitles it to unlock, but
+// the rule is never evaluated again; A prevotes X, B and C prevote Y, all three are needed for +2/3.
+func TestKnownLockNotReleased(t *testing.T) {
+	powers := []int64{15, 15, 15, 15}
+	s, err := netsim.NewSim(powers, nil, nil)
+	if err != nil {
+		t.Fatalf("harness: %v", err)
+	}
+	defer s.Close()
+	vs := s.Nodes[0].CS.Validators.Copy()
+	p1 := vs.GetProposer().Address
+	vs.IncrementProposerPriority(1)
+	p2 := vs.GetProposer().Address
+	A, B, C, D := -1, -1, -1, -1
+	for i := range s.Keys {
+		switch {
+		case s.Addr(i) == p1:
+			C = i
+		case s.Addr(i) == p2:
+			D = i
+		case A < 0:
+			A = i
+		default:
+			B = i
+		}
+	}
+	s.Down[D] = true
+	s.Byz = []int{D}
+	s.Correct = []int{A, B, C}
+	desc := fmt.Sprintf("scripted: A=n%d B=n%d C=n%d(proposer r1) D=n%d(Byzantine, proposer r2)", A, B, C, D)
+	relay := func(to int, from []int, typ kproto.SignedMsgType, round uint32) {
+		for _, j := range from {
+			for _, m := range netsim.Offers(s.Nodes[j], s.Nodes[to]) {
+				if vm, ok := m.(*consensus.VoteMessage); ok && vm.Vote.Type == typ && vm.Vote.Round == round {
+					s.Deliver(to, j, m)
+				}
+			}
+		}
+		s.DrainOwn(to)
+	}
+	data := func(to, from int) {
+		for pass := 0; pass < 2; pass++ {
+			for _, m := range netsim.Offers(s.Nodes[from], s.Nodes[to]) {
+				switch m.(type) {
+				case *consensus.ProposalMessage, *consensus.BlockPartMessage:
+					s.Deliver(to, from, m)
+				}
+			}
+		}
+		s.DrainOwn(to)
+	}
+	inStep := func(i int, step string) bool { return s.Nodes[i].CS.Step.String() == step }
+	var reached bool
+	var why string
+	msg, frame := ev.Try(func() {
+		s.Start()
+		for _, i := range s.Correct {
+			s.FireTimeoutNoDrain(i)
+		}
+		s.DrainOwn(C) // proposes X, prevotes it
+		s.RegisterFromNodes()
+		data(A, C)
+		data(B, C) // A and B prevote X
+		nilID := types.BlockID{}
+		// round 1: only A sees the polka
+		relay(A, []int{B, C}, kproto.PrevoteType, 1) // A: lock X, precommit X
+		s.ByzVoteTo([]int{B, C}, kproto.PrevoteType, 1, nilID, 1)
+		relay(B, []int{C}, kproto.PrevoteType, 1)
+		relay(C, []int{B}, kproto.PrevoteType, 1)
+		s.FireTimeout(B) // prevote-wait -> precommit nil
+		s.FireTimeout(C)
+		s.ByzVoteTo([]int{B, C}, kproto.PrecommitType, 1, nilID, 1)
+		relay(B, []int{C}, kproto.PrecommitType, 1)
+		relay(C, []int{B}, kproto.PrecommitType, 1)
+		s.FireTimeout(B) // precommit-wait -> round 2
+		s.FireTimeout(C)
+		desc += " | after round 1: " + s.Describe(s.Correct)
+		// round 2: D proposes Y to B and C, who lock it with D's prevote
+		Y := s.MakeCand(B, D, 0, "")
+		if Y == nil {
+			panic("harness: no candidate for round 2")
+		}
+		prop := s.SignProposal(D, 1, 2, 0, Y.ID)
+		for _, j := range []int{B, C} {
+			s.Deliver(j, D, &consensus.ProposalMessage{Proposal: prop})
+			for k := 0; k < int(Y.Parts.Total()); k++ {
+				s.Deliver(j, D, &consensus.BlockPartMessage{Height: 1, Round: 2, Part: Y.Parts.GetPart(k)})
+			}
+			s.DrainOwn(j) // prevotes Y
+		}
+		s.ByzVoteTo([]int{B, C}, kproto.PrevoteType, 2, Y.ID, 1)
+		relay(B, []int{C}, kproto.PrevoteType, 2) // polka: lock Y, precommit Y
+		relay(C, []int{B}, kproto.PrevoteType, 2)
+		s.ByzVoteTo([]int{B, C}, kproto.PrecommitType, 2, nilID, 1)
+		relay(B, []int{C}, kproto.PrecommitType, 2)
+		relay(C, []int{B}, kproto.PrecommitType, 2)
+		s.FireTimeout(B) // precommit-wait -> round 3
+		s.FireTimeout(C)
+		// round 3: B and C prevote their locked block (after the proposal, if one of them proposes, or the timeout)
+		s.DrainOwn(B)
+		s.DrainOwn(C)
+		data(B, C)
+		data(C, B)
+		for _, i := range []int{B, C} {
+			if inStep(i, "RoundStepPropose") {
+				s.FireTimeout(i)
+			}
+		}
+		desc += " | B and C in round 3: " + s.Describe(s.Correct)
+		// A (still in round 1) gets the round-2 prevotes: polka for Y while it is behind; pulled into round 2 ...
+		relay(A, []int{B, C}, kproto.PrevoteType, 2)
+		s.ByzVoteTo([]int{A}, kproto.PrevoteType, 2, Y.ID, 1)
+		desc += " | A after the round-2 prevotes: " + netsim.Fingerprint(s.Nodes[A])
+		// ... and, before it has prevoted there, into round 3
+		relay(A, []int{B, C}, kproto.PrevoteType, 3)
+		s.ByzVoteTo([]int{A}, kproto.PrevoteType, 3, nilID, 1)
+		desc += " | before suffix: " + s.Describe(s.Correct)
+		reached, _, why = s.SyncRun(s.Correct, 3, 600)
+	})
+	if msg != "" {
+		ev.Violation(t, "panic:"+frame, desc, "panic in the scripted schedule: %s", msg)
+		return
+	}
+	kind := ""
+	if !reached {
+		kind = stuckKind(s, powers)
+	}
+	ev.Case(true, desc, "known-reproducer")
+	ev.Sample("known-reproducer", desc+" => reached="+fmt.Sprint(reached)+" "+first(why, 300))
+	if ev.Known(keyHeldPolka) {
+		ev.KnownReproduced(keyHeldPolka, !reached && kind == "lock-not-released-by-held-polka")
+		return
+	}
+	if !reached {
+		key := "liveness.deadlock"
+		if kind != "" {
+			key = "liveness.stuck:" + kind
+		}
+		ev.Violation(t, key, desc, "no progress under synchronous delivery: %s", first(why, 600))
+	}
+}
+
+func first(s string, n int) string {
+	if len(s) > n {
+		return s[:n]
+	}
+	return s
 }
